@@ -636,6 +636,16 @@ pub fn gen_c12(ch: &mut Chooser, id: u64, tier: Tier) -> Scenario {
             if path_trace {
                 m.path = vec![m.clock_id];
             }
+            // sometimes the same grandmaster as master0's over a path of the same length (the data set
+            // comparison then ends "better by topology": the port facing it goes Passive while master0
+            // is heard) or over a longer path (plain "better": the port stays Master)
+            if ch.chance(S_CFG, 1, 3) {
+                m.gm = peers[0].gm.clone();
+                m.gm.steps_removed = ch.weighted(S_CFG, &[2, 1, 1]) as u16;
+                if path_trace {
+                    m.path = vec![m.gm.identity, m.clock_id];
+                }
+            }
             peers.push(m);
         }
         if p.p2p {
